@@ -299,7 +299,11 @@ class Independence(Contract):
     def run(self, cfg, P, inp):
         s, n, f = cfg['fmt']
         shape = tuple(cfg['shape'])
-        src = make_fxp(P, s, n, f, codes=inp['c'], shape=shape, cfg={'rounding': 'around', 'overflow': 'wrap'}, vdtype=float)
+        tmpl = make_fxp(P, True, 12, 2, codes=[0], shape=(), vdtype=float)
+        arr_tmpl = make_fxp(P, True, 10, 1, codes=[0], shape=(), vdtype=float)
+        # the configuration itself holds mutable objects (output templates): they must be copied too
+        src = make_fxp(P, s, n, f, codes=inp['c'], shape=shape, cfg={'rounding': 'around', 'overflow': 'wrap', 'op_out_like': tmpl,
+                                                                     'array_op_out_like': arr_tmpl}, vdtype=float)
         r = cfg['route']
         v0 = list(elems(src.val))
         if r == 'deepcopy':
@@ -317,18 +321,22 @@ class Independence(Contract):
         sep = z is not src and z.config is not src.config and z.status is not src.status and not shares_buffer(z.val, src.val)
         if r != 'ctor_config':
             sep = sep and (z.callbacks is not src.callbacks)
+        if z.config.op_out_like is not None:
+            sep = sep and z.config.op_out_like is not src.config.op_out_like and z.config.op_out_like.status is not src.config.op_out_like.status
+        if z.config.array_op_out_like is not None:
+            sep = sep and z.config.array_op_out_like is not src.config.array_op_out_like
         # mutate the derived object: flag-raising write, config change, reset; the source must not notice
-        st0 = dict(src.status); cfg0 = dict(src.config.__dict__)
+        st0 = dict(src.status); cfg0 = {k: v for k, v in src.config.__dict__.items() if not k.endswith('_like')}
         z.config.rounding = 'floor'; z.config.overflow = 'saturate'
         z.set_val(1000.3)
         z.status['overflow'] = True
-        src_same = same_status(src.status, st0) and src.config.__dict__ == cfg0 and same_elems(elems(src.val), v0)
+        src_same = same_status(src.status, st0) and {k: v for k, v in src.config.__dict__.items() if not k.endswith('_like')} == cfg0 and same_elems(elems(src.val), v0)
         # and the other way round
-        zst0 = dict(z.status); zv0 = list(elems(z.val)); zc0 = dict(z.config.__dict__)
+        zst0 = dict(z.status); zv0 = list(elems(z.val)); zc0 = {k: v for k, v in z.config.__dict__.items() if not k.endswith('_like')}
         src.config.rounding = 'ceil'
         src.set_val(-1000.3)
         src.reset()
-        z_same = same_status(z.status, zst0) and same_elems(elems(z.val), zv0) and z.config.__dict__ == zc0
+        z_same = same_status(z.status, zst0) and same_elems(elems(z.val), zv0) and {k: v for k, v in z.config.__dict__.items() if not k.endswith('_like')} == zc0
         return {'separate': sep, 'source_unaffected': src_same, 'derived_unaffected': z_same}
 
     def post(self, cfg, inp, obs):
